@@ -176,6 +176,38 @@ func ForgeCertAlg(key *rsa.PrivateKey, issuer *x509.Certificate, issuerKey *rsa.
 	return c
 }
 
+// OtherRoot makes the self-signed root of another authority, one that certifies its signing keys
+// through intermediate CAs (no path-length limit), valid like root.
+func OtherRoot(like *x509.Certificate, key *rsa.PrivateKey) *x509.Certificate {
+	t := &x509.Certificate{SerialNumber: big.NewInt(76), Subject: pkix.Name{CommonName: "other-authority-root", SerialNumber: "76"}, NotBefore: like.NotBefore, NotAfter: like.NotAfter,
+		IsCA: true, BasicConstraintsValid: true, KeyUsage: x509.KeyUsageCertSign | x509.KeyUsageCRLSign, SignatureAlgorithm: x509.SHA256WithRSAPSS}
+	der, err := x509.CreateCertificate(rand.Reader, t, t, &key.PublicKey, key)
+	if err != nil {
+		panic(err)
+	}
+	c, err := x509.ParseCertificate(der)
+	if err != nil {
+		panic(err)
+	}
+	return c
+}
+
+// IntermediateCA makes a CA certificate for key issued by root: an authority that certifies its
+// signing keys through an intermediate.
+func IntermediateCA(root *x509.Certificate, rootKey, key *rsa.PrivateKey) *x509.Certificate {
+	t := &x509.Certificate{SerialNumber: big.NewInt(77), Subject: pkix.Name{CommonName: "intermediate-ca", SerialNumber: "77"}, NotBefore: root.NotBefore, NotAfter: root.NotAfter,
+		IsCA: true, BasicConstraintsValid: true, KeyUsage: x509.KeyUsageCertSign | x509.KeyUsageCRLSign, SignatureAlgorithm: x509.SHA256WithRSAPSS}
+	der, err := x509.CreateCertificate(rand.Reader, t, root, &key.PublicKey, rootKey)
+	if err != nil {
+		panic(err)
+	}
+	c, err := x509.ParseCertificate(der)
+	if err != nil {
+		panic(err)
+	}
+	return c
+}
+
 // LookalikeRoot makes a self-signed CA certificate that copies the subject, serial and validity of
 // root but certifies key: same names, other key.
 func LookalikeRoot(root *x509.Certificate, key *rsa.PrivateKey) *x509.Certificate {
